@@ -91,6 +91,7 @@ func (c *Cluster) nonBabblingStep(s *Step) {
 	case "suspend":
 		if n := c.nodeAt(s.A); n != nil && n.running() && n.state() == _state.Babbling && !n.isObserver {
 			// keep more than two thirds babbling unless the run is about quorum loss
+			c.drainTasksOf(n)
 			n.node.Suspend()
 			n.explicitSuspend = true
 			c.stats.probe("c17-runtime-suspend")
